@@ -142,6 +142,9 @@ theorem step_noPending (m m' : Migration) (s : Stmt) (h : m.Inv) (hp : m.NoPendi
     have := pure_ok hs; subst this
     exact using_noPending m1 t (Migration.removeIndex_pending m m1 t _ h hp h1)
   | commentOn t c text => unfold step at hs; cases hs
+  | alterType t c typ => unfold step at hs; cases hs
+  | setDefault t c d => unfold step at hs; cases hs
+  | dropNotNull t c => unfold step at hs; cases hs
 
 theorem run_noPending (ss : List Stmt) : ∀ (m m' : Migration), m.Inv → m.NoPending → RenameFresh id step m ss →
     PosFresh step m ss → run m ss = .ok m' → m'.NoPending := by
@@ -228,6 +231,13 @@ theorem step_noPending (m m' : Migration) (s : Stmt) (h : m.Inv) (hp : m.NoPendi
   | createIndex t name cols uniq usingT => unfold step at hs; exact Migration.addIndex_pending m m' _ _ h hp hs
   | dropIndex t name => unfold step at hs; exact Migration.removeIndex_pending m m' _ _ h hp hs
   | commentOn t c text => unfold step at hs; exact Migration.addComment_pending m m' _ _ _ h hp hs
+  | alterType t c typ =>
+    unfold step at hs
+    exact Migration.addColumn_pending m m' _ _ _ h (hp.only _) (fun x hx _ => Or.inl (hp x hx)) hs
+  | setDefault t c d =>
+    unfold step at hs
+    exact Migration.addColumn_pending m m' _ _ _ h (hp.only _) (fun x hx _ => Or.inl (hp x hx)) hs
+  | dropNotNull t c => unfold step at hs; have := pure_ok hs; subst this; exact hp
 
 theorem run_noPending (ss : List Stmt) : ∀ (m m' : Migration), m.Inv → m.NoPending →
     RenameFresh pgName step m ss → run m ss = .ok m' → m'.NoPending := by
@@ -281,6 +291,9 @@ theorem step_noPending (m m' : Migration) (s : Stmt) (h : m.Inv) (hp : m.NoPendi
   | renameIndex t o n => unfold step at hs; cases hs
   | dropIndex t name => unfold step at hs; cases hs
   | commentOn t c text => unfold step at hs; cases hs
+  | alterType t c typ => unfold step at hs; cases hs
+  | setDefault t c d => unfold step at hs; cases hs
+  | dropNotNull t c => unfold step at hs; cases hs
 
 theorem run_noPending (ss : List Stmt) (m m' : Migration) (h : m.Inv) (hp : m.NoPending) (hs : run m ss = .ok m') :
     m'.NoPending :=
